@@ -968,6 +968,41 @@ where
     }
 }
 
+/// Verification hook: `(nodes, ops, prio_indices)` where a node is `(literal, variable index,
+/// unary operator indices)` and an operator is `(index, priority, is_commutative, unary indices)`.
+#[cfg(exmex_verif)]
+pub type VerifFlatStructure<T> = (
+    Vec<(Option<T>, Option<usize>, Vec<usize>)>,
+    Vec<(usize, i64, bool, Vec<usize>)>,
+    Vec<usize>,
+);
+
+#[cfg(exmex_verif)]
+impl<T, OF, LMF> FlatEx<T, OF, LMF>
+where
+    T: DataType,
+    OF: MakeOperators<T>,
+    LMF: MatchLiteral,
+{
+    pub fn verif_structure(&self) -> VerifFlatStructure<T> {
+        let unary = |u: &UnaryOp<T>| u.funcs_to_be_composed().iter().map(|f| f.idx).collect::<Vec<_>>();
+        (
+            self.nodes
+                .iter()
+                .map(|n| match &n.kind {
+                    FlatNodeKind::Num(x) => (Some(x.clone()), None, unary(&n.unary_op)),
+                    FlatNodeKind::Var(i) => (None, Some(*i), unary(&n.unary_op)),
+                })
+                .collect(),
+            self.flat_ops
+                .iter()
+                .map(|o| (o.bin_op.idx, o.bin_op.op.prio, o.bin_op.op.is_commutative, unary(&o.unary_op)))
+                .collect(),
+            self.prio_indices.to_vec(),
+        )
+    }
+}
+
 /// The expression is displayed as a string created by [`unparse`](FlatEx::unparse).
 impl<T, OF, LMF> Display for FlatEx<T, OF, LMF>
 where
